@@ -18,8 +18,8 @@ FULL = ['name', 'size', 'x', '0', '1', '17', ',', 'from', 'where', '=', '=!', '+
 FAMILIES = {
     # name: (fixed prefix, alphabet, max symbolic tokens quick, thorough)
     'full': ([], FULL, 2, 4),
-    'select': ([], ['name', 'size', '+', '-', '*', '/', '(', ')', ',', 'length', 'x', '1', 'from', '.'], 3, 5),
-    'where': (['name', 'where'], ['name', 'size', '=', '=!', 'between', 'and', 'or', 'not', '(', ')', '+', '1', 'x', 'q:x', 'is_dir'], 3, 5),
+    'select': ([], ['name', 'size', '+', '-', '*', '/', '(', ')', '}', ',', 'length', 'x', '1', 'from', '.'], 3, 5),
+    'where': (['name', 'where'], ['name', 'size', '=', '=!', 'between', 'and', 'or', 'not', '(', ')', '}', '+', '1', 'x', 'q:x', 'is_dir'], 3, 5),
     'orderby': (['name', 'order', 'by'], ['name', 'size', '0', '1', '2', 'desc', ',', '+', 'x', 'asc'], 3, 4),
     'groupby': (['name', 'group', 'by'], ['name', 'size', '+', ',', '(', ')', 'x', 'order', 'by'], 3, 4),
     'tail': (['name'], ['limit', '1', 'x', '-1', 'into', 'json', 'nope', 'q:2', 'from', '.', 'depth', 'mindepth'], 3, 5),
@@ -53,6 +53,66 @@ def cli_replay(tokens):
     return rep
 
 
+FORMATS = ('tabs', 'lines', 'list', 'csv', 'json', 'html')
+OPERATORS = ('=', '=!', 'between', '==', '!=', '>', '<')
+
+
+def malformed(tokens, ncols_known=None):
+    """-> category or None: token vectors that the property statement names as malformed (only shapes that are malformed
+    whatever else the query contains): unbalanced or mismatched brackets, a dangling or unknown operator, an ORDER BY position
+    outside 1..number of columns, a non-numeric LIMIT, an unknown output format, no column"""
+    stack = []
+    for t in tokens:
+        if t in ('(', '{'):
+            stack.append(t)
+        elif t in (')', '}'):
+            if not stack or (stack[-1], t) not in (('(', ')'), ('{', '}')):
+                return 'bracket'
+            stack.pop()
+    if stack:
+        return 'bracket'
+    if not tokens or tokens[0] in ('from', 'where', 'order', 'limit', 'into'):
+        return 'no-column'
+    kw = ('from', 'where', 'order', 'by', 'limit', 'into', 'group', 'and', 'or', 'desc')
+    for i, t in enumerate(tokens):
+        nxt = tokens[i + 1] if i + 1 < len(tokens) else None
+        if t == '=!' and 'where' in tokens[:i]:
+            return 'unknown-operator'
+        if t in OPERATORS and 'where' in tokens[:i] and (nxt is None or nxt in kw or nxt == ')'):
+            return 'dangling-operator'
+        if t == 'limit' and (nxt is None or not nxt.lstrip('q:').isdigit()):
+            return 'limit'
+        if t == 'into' and (nxt is None or nxt.lstrip('q:').lower() not in FORMATS):
+            return 'format'
+    if 'order' in tokens:
+        i = tokens.index('order')
+        if i + 1 < len(tokens) and tokens[i + 1] == 'by':
+            ncols = ncols_known
+            for t in tokens[i + 2:]:
+                if t in ('limit', 'into'):
+                    break
+                j = tokens.index(t, i + 2)
+                prev = tokens[j - 1]; nxt = tokens[j + 1] if j + 1 < len(tokens) else None
+                if t.isdigit() and ncols is not None and not (1 <= int(t) <= ncols) and prev in ('by', ',') and nxt in (None, ',', 'desc', 'asc', 'limit', 'into'):
+                    return 'order-position'
+    return None
+
+
+def cli_replay_reject(tokens):
+    def rep():
+        exe = common.native_binary()
+        argv = render_argv(tokens)
+        tree = {'a.txt': {'size': 3}, 'd': {'kind': 'dir'}, 'd/b': {'size': 17}}
+        for args in (argv, [' '.join(argv)]):
+            r = common.run_cli(exe, args, tree, timeout=5)
+            if r['timed_out'] or r['status'] not in (0, 1, 2):
+                return True, 'fselect %r: status %s' % (args, r['status'])
+            if r['status'] != 2 or r['stdout']:
+                return True, 'fselect %r is malformed but ends with status %s and %d result row(s) (stderr %r)' % (args, r['status'], len(r['stdout'].split(chr(10))) - 1, r['stderr'][:80])
+        return False, 'fselect %r: rejected with status 2 and no rows' % (argv,)
+    return rep
+
+
 def run_family(sess, fam):
     prog = sess.prog
     prefix, alpha, nq, nt = FAMILIES[fam]
@@ -63,6 +123,7 @@ def run_family(sess, fam):
     ]
     parse = prog.find('Parser', 'parse')
     findings = {}      # role -> (tokens, kind, detail)
+    accepted = {}      # role -> tokens of a malformed vector the parser accepts
     st = {'paths': 0, 'ok': 0, 'err': 0, 'panic': 0, 'hang': 0}
     budget = 60 if sess.tier == 'quick' else 1500
     import time
@@ -92,6 +153,19 @@ def run_family(sess, fam):
                 tv, res = out[1]
                 d = res.d if isinstance(res.d, int) else conc(res.d)
                 st['ok' if d == 0 else 'err'] += 1
+                if d == 0 and tv:
+                    # an accepted vector: must not be one of the malformed shapes (up to 6 assignments per path)
+                    block = []
+                    for _ in range(6):
+                        if ctx.check(*block) != z3.sat:
+                            break
+                        m = ctx.model(*block)
+                        idx = [m.eval(t, model_completion=True).as_long() for t in tv]
+                        toks = prefix + [alpha[i] for i in idx]
+                        cat = malformed(toks, ncols_known=(1 if fam in ('orderby',) else None))
+                        if cat:
+                            accepted.setdefault('parse/accepts/' + cat, toks)
+                        block.append(Or([t != i for t, i in zip(tv, idx)]))
                 return
             if out[0] == 'panic':
                 st['panic'] += 1
@@ -153,6 +227,14 @@ def run_family(sess, fam):
             sess.violated('parse/%s: %s' % (fam, ' '.join(toks)), role, '%s: %s' % (kind, detail[:160]), {'tokens': toks}, (lambda r=repro, d=det: (r, d)), 'parse/' + fam)
         else:
             parser_only.append((' '.join(toks), kind, det[:120]))
+    for role, toks in sorted(accepted.items()):
+        rep = cli_replay_reject(toks)
+        repro, det = rep()
+        if repro:
+            sess.violated('parse/%s: %s' % (fam, ' '.join(toks)), role, 'a malformed query (%s) is accepted by Parser::parse' % role.rsplit('/', 1)[1], {'tokens': toks},
+                          (lambda r=repro, d=det: (r, d)), 'parse/' + fam)
+        else:
+            parser_only.append((' '.join(toks), 'accepted', det[:120]))
     if parser_only:
         sess.notes.append('parse/%s: %d parser-level findings do not reproduce through the command line (token vectors the lexer does not produce): %r'
                           % (fam, len(parser_only), parser_only[:6]))
@@ -191,5 +273,7 @@ def main(sess):
             run_family(sess, fam)
     if not only or 'eval' in only:
         # evaluation-time crashes: arithmetic on arbitrary operands (driver of C15)
-        from drivers import c15
+        from drivers import c15, c16
         c15.fam_calc(sess)
+        # scalar functions on ill-typed / out-of-range arguments (driver of C16)
+        c16.fam_args(sess)
